@@ -1509,9 +1509,10 @@ def gen_spec(rng, max_n, i):
     # thorough tier: the model's exact replay of a returned circuit (`fold`, one sequential Lean process, exact rationals
     # that grow with every cell) costs about 6x more per extra mode (n = 4: ~1 s, 5: ~7 s, 6: ~35 s on a Haar matrix), and
     # it - not the decompositions, which run in 14 processes - is what the wall time of the tier consists of: n = 6 is
-    # kept as 5% of the cases, n = 5 as 30% (was 1/8 and 1/4 of 1500 cases: 33 min)
+    # kept as 2.5% of the cases, n = 5 as 25% (was 1/8 and 1/4 of 1500 cases: 26+ min of CPU in that one process; with
+    # 400 cases and these shares about 7 min measured on a machine under load 60-80)
     n = rng.choice([2, 2, 3, 3, 3, 4, 4, 5] if max_n <= 5 else
-                   [2, 2, 3, 3, 3, 3, 4, 4, 4, 4, 4, 4, 4, 5, 5, 5, 5, 5, 5, 6])
+                   [2] * 4 + [3] * 10 + [4] * 15 + [5] * 10 + [6])
     n = min(n, max_n)
     spec = {"n": n, "kind": rng.choice(KINDS), "seed": rng.randrange(1, 2 ** 30)}
     b = rng.random()
@@ -1574,7 +1575,7 @@ def gen_exact_spec(rng, max_n):
     """a request of the run-level existence stream: one of the two universal blocks, any matrix kind, the closed-form
     solver plugged in (`exact`), the default precision or one at rounding level (1e-12: nothing but exact zeros and
     rounding dust is skipped, the returned matrix must be the requested one to 1e-11)"""
-    spec = {"n": rng.choice([2, 3, 3, 4, 4, 5] if max_n <= 5 else [2, 3, 3, 3, 4, 4, 4, 4, 4, 5, 5, 5, 5, 5, 5, 6]),
+    spec = {"n": rng.choice([2, 3, 3, 4, 4, 5] if max_n <= 5 else [2] * 4 + [3] * 8 + [4] * 11 + [5] * 8 + [6]),
             "kind": rng.choice(KINDS + ["dust7"]),
             "seed": rng.randrange(1, 2 ** 30), "block": rng.choice(UNIVERSAL), "exact": True}
     spec["n"] = min(spec["n"], max_n)
@@ -2119,7 +2120,7 @@ def run(chk: core.Check):
         block_pending = [pool.apply_async(observe_blocks, (block_cases[c::4],)) for c in range(4)]
         glue_cases = [gen_glue_case(rng) for _ in range(chk.pick(120, 400))]
         glue_pending = [pool.apply_async(observe_glue, (g,)) for g in glue_cases]
-        exact_specs = [gen_exact_spec(rng, max_n) for _ in range(chk.pick(40, 100))]
+        exact_specs = [gen_exact_spec(rng, max_n) for _ in range(chk.pick(40, 80))]
         exact_pending = [pool.apply_async(observe, (e,)) for e in exact_specs]
         other_cases = [gen_other_block_case(rng) for _ in range(chk.pick(60, 240))]
         other_pending = [pool.apply_async(observe_blocks, (other_cases[c::4],)) for c in range(4)]
